@@ -123,7 +123,7 @@ func build() (*built, error) {
 		src := strings.TrimSpace(string(out))
 		dst := filepath.Join(scratch, "deps", "notation-core-go")
 		if err := copyTree(src, dst); err == nil {
-			if nd, _, err := rewriteImports(dst); err == nil && nd > 0 {
+			if nd, _, err := rewriteImports(dst, "sync"); err == nil && nd > 0 { // its locks are its own business
 				mod += "\nreplace " + coreMod + " => " + dst + "\n"
 				if err := os.WriteFile(modfile, []byte(mod), 0644); err != nil {
 					return b, err
